@@ -110,6 +110,14 @@ impl BlteBuilder {
             };
             self.chunks.push(chunk);
         } else {
+            if self.chunk_size == 0 {
+                // a zero chunk size never advances through the data
+                return Err(BlteError::InvalidChunkSize {
+                    size: 0,
+                    min: 1,
+                    max: MAX_CHUNK_SIZE,
+                });
+            }
             // Multiple chunks - continue from the chunks already added
             let mut offset = 0;
             let mut chunk_index = self.chunks.len();
@@ -161,6 +169,14 @@ impl BlteBuilder {
             };
             self.chunks.push(chunk);
         } else {
+            if self.chunk_size == 0 {
+                // a zero chunk size never advances through the data
+                return Err(BlteError::InvalidChunkSize {
+                    size: 0,
+                    min: 1,
+                    max: MAX_CHUNK_SIZE,
+                });
+            }
             // Multiple chunks
             let mut offset = 0;
             let mut chunk_index = self.chunks.len();
